@@ -441,11 +441,7 @@ func visitInstr(fr *frame, instr ssa.Instruction) continuation {
 		if m == nil {
 			panic(runtimePanic{"assignment to entry in nil map"})
 		}
-		key := fr.get(instr.Key)
-		if hasSym(key) {
-			key = fr.concretizeDeep(key, "map.key")
-		}
-		m.insert(key, copyVal(fr.get(instr.Value)))
+		m.insertF(fr, fr.get(instr.Key), copyVal(fr.get(instr.Value)))
 
 	case *ssa.TypeAssert:
 		fr.env[instr] = typeAssert(instr, fr.get(instr.X).(iface))
